@@ -10,7 +10,7 @@ from xdsl.interpreter import (
     impl,
     register_impls,
 )
-from xdsl.utils.comparisons import to_signed
+from xdsl.utils.comparisons import to_signed, to_unsigned
 from xdsl.utils.exceptions import InterpretationError
 from xdsl.utils.hints import isa
 
@@ -135,19 +135,24 @@ class ArithFunctions(InterpreterFunctions):
 
     @impl(arith.CmpiOp)
     def run_cmpi(self, interpreter: Interpreter, op: arith.CmpiOp, args: PythonValues):
+        assert isa(op.lhs.type, builtin.IndexType | builtin.IntegerType)
+        # Signless values may be given as either their signed or unsigned representative,
+        # equality and the signed predicates compare the signed representatives.
+        slhs = to_signed(args[0], _int_bitwidth(interpreter, op.lhs.type))
+        srhs = to_signed(args[1], _int_bitwidth(interpreter, op.lhs.type))
         match op.predicate.value.data:
             case 0:  # "eq"
-                return (args[0] == args[1],)
+                return (slhs == srhs,)
             case 1:  # "ne"
-                return (args[0] != args[1],)
+                return (slhs != srhs,)
             case 2:  # "slt"
-                return (args[0] < args[1],)
+                return (slhs < srhs,)
             case 3:  # "sle"
-                return (args[0] <= args[1],)
+                return (slhs <= srhs,)
             case 4:  # "sgt"
-                return (args[0] > args[1],)
+                return (slhs > srhs,)
             case 5:  # "sge"
-                return (args[0] >= args[1],)
+                return (slhs >= srhs,)
             case 6:  # "ult"
                 return (args[0] < args[1],)
             case 7:  # "ule"
@@ -209,42 +214,40 @@ class ArithFunctions(InterpreterFunctions):
 
     @impl(arith.ShLIOp)
     def run_shlsi(self, interpreter: Interpreter, op: arith.ShLIOp, args: PythonValues):
-        lhs: int
-        rhs: int
-        (lhs, rhs) = args
-        assert rhs >= 0
-        return (lhs << rhs,)
+        assert isa(op.result.type, builtin.IndexType | builtin.IntegerType)
+        lhs = to_signed(args[0], _int_bitwidth(interpreter, op.result.type))
+        rhs = to_unsigned(args[1], _int_bitwidth(interpreter, op.result.type))
+        return (to_signed(lhs << rhs, _int_bitwidth(interpreter, op.result.type)),)
 
     @impl(arith.ShRSIOp)
     def run_shrsi(
         self, interpreter: Interpreter, op: arith.ShRSIOp, args: PythonValues
     ):
-        lhs: int
-        rhs: int
-        (lhs, rhs) = args
-        assert rhs >= 0
+        assert isa(op.result.type, builtin.IndexType | builtin.IntegerType)
+        lhs = to_signed(args[0], _int_bitwidth(interpreter, op.result.type))
+        rhs = to_unsigned(args[1], _int_bitwidth(interpreter, op.result.type))
         return (lhs >> rhs,)
 
     @impl(arith.DivSIOp)
     def run_divsi(
         self, interpreter: Interpreter, op: arith.DivSIOp, args: PythonValues
     ):
-        lhs: int
-        rhs: int
-        (lhs, rhs) = args
+        assert isa(op.result.type, builtin.IndexType | builtin.IntegerType)
+        lhs = to_signed(args[0], _int_bitwidth(interpreter, op.result.type))
+        rhs = to_signed(args[1], _int_bitwidth(interpreter, op.result.type))
         assert rhs != 0
         div = abs(lhs) // abs(rhs)
         if (lhs > 0) != (rhs > 0):
             div = -div
-        return (div,)
+        return (to_signed(div, _int_bitwidth(interpreter, op.result.type)),)
 
     @impl(arith.RemSIOp)
     def run_remsi(
         self, interpreter: Interpreter, op: arith.RemSIOp, args: PythonValues
     ):
-        lhs: int
-        rhs: int
-        (lhs, rhs) = args
+        assert isa(op.result.type, builtin.IndexType | builtin.IntegerType)
+        lhs = to_signed(args[0], _int_bitwidth(interpreter, op.result.type))
+        rhs = to_signed(args[1], _int_bitwidth(interpreter, op.result.type))
         assert rhs != 0
         div = abs(lhs) // abs(rhs)
         if (lhs > 0) != (rhs > 0):
@@ -255,11 +258,11 @@ class ArithFunctions(InterpreterFunctions):
     def run_floordivsi(
         self, interpreter: Interpreter, op: arith.FloorDivSIOp, args: PythonValues
     ):
-        lhs: int
-        rhs: int
-        (lhs, rhs) = args
+        assert isa(op.result.type, builtin.IndexType | builtin.IntegerType)
+        lhs = to_signed(args[0], _int_bitwidth(interpreter, op.result.type))
+        rhs = to_signed(args[1], _int_bitwidth(interpreter, op.result.type))
         assert rhs != 0
-        return (lhs // rhs,)
+        return (to_signed(lhs // rhs, _int_bitwidth(interpreter, op.result.type)),)
 
     @impl(arith.IndexCastOp)
     def run_indexcast(
